@@ -192,8 +192,58 @@ let c11 file =
     | "S" :: _ | "hdr" :: _ | "halfrate" :: _ | "setup" :: _ -> print_endline line
     | _ -> ()) (read_lines file)
 
+(* ---------------------------------------------------------------- C17 *)
+let c17 file =
+  let chans = ref 1 and hs = ref 0 in
+  let cur = ref None in            (* pending R op: word sg be len avail *)
+  let ins : (int, Model.f32 list) Hashtbl.t = Hashtbl.create 8 in
+  let f32s_of_hex h =
+    if h = "-" then [] else
+    List.init (String.length h / 8) (fun i -> decode_b32 (zi (int_of_string ("0x" ^ String.sub h (8*i) 8)))) in
+  List.iter (fun line ->
+    match split line with
+    | "case" :: _ -> print_endline line
+    | ["cfg"; c; h] -> chans := int_of_string c; hs := int_of_string h; print_endline line
+    | ["R"; w; sg; be; len; "|"; "peek"; pk; "avail"; av; "ch"; c] ->
+        Hashtbl.reset ins;
+        chans := int_of_string c;
+        cur := Some (int_of_string w, sg = "1", be = "1", int_of_string len, int_of_string av);
+        (* the zero-length peek (made with a valid word size): refused when data is pending *)
+        let avi = int_of_string av in
+        let exp_pk = if avi > 0 then -131 else int_of_string pk in
+        Printf.printf "R %s %s %s %s | peek %d avail %s ch %s\n" w sg be len exp_pk av c
+    | ["in"; c; h] -> Hashtbl.replace ins (int_of_string c) (f32s_of_hex h); print_endline line
+    | "filter" :: _ ->
+        (match !cur with
+         | Some (w, _, _, len, av) ->
+             let (_, n) = read_frames (zi av) (zi len) (zi w) (zi !chans) in
+             Printf.printf "filter %d %d\n" !chans (iz n)
+         | None -> print_endline "filter ?")
+    | ["ret"; r; "adv"; _; "link"; lk] ->
+        (match !cur with
+         | Some (w, sg, be, len, av) ->
+             if av <= 0 then print_endline line   (* end of stream / error before packing: echoed, checked by prop lines *)
+             else begin
+               let (r', n) = read_frames (zi av) (zi len) (zi w) (zi !chans) in
+               Printf.printf "ret %d adv %d link %s\n" (iz r') ((iz n) lsl !hs) lk
+             end
+         | None -> print_endline "ret ?")
+    | ["out"; h] ->
+        (match !cur with
+         | Some (w, sg, be, len, av) when av > 0 ->
+             let (r', n) = read_frames (zi av) (zi len) (zi w) (zi !chans) in
+             if iz r' <= 0 then print_endline "out -" else begin
+               let cl = List.init !chans (fun c -> try Hashtbl.find ins c with Not_found -> []) in
+               let bytes = pack_frames (zi w) sg be cl (nat_of_int (iz n)) in
+               Printf.printf "out %s\n" (hex_of_bytes (List.map (fun z -> n_of_int (iz z)) bytes))
+             end
+         | _ -> print_endline line)
+    | "F" :: _ | "S" :: _ | "open" :: _ | "halfrate" :: _ -> print_endline line
+    | _ -> ()) (read_lines file)
+
 let () =
   match Array.to_list Sys.argv with
+  | [_; "c17"; f] -> c17 f
   | [_; "c11"; f] -> c11 f
   | [_; "c04"; f] -> c04 f
   | [_; "c16"; f] -> c16 f
